@@ -1,16 +1,47 @@
 (** The part of Go's [time] package the program uses: layouts made of the
-    tokens 2006 / 01 / 02 and literal separators, [time.Parse] with its range
-    checks, [Format], instants in nanoseconds, fixed zone offsets.  A layout
-    outside this fragment is reported as unmodelled.  Model only. *)
+    elements 2006 / 01 / 02 / 1 / 2 / _2 / Jan / January and literal separators,
+    [time.Parse] with its range checks, [Format], instants in nanoseconds, fixed
+    zone offsets.  A layout outside this fragment is reported as unmodelled.
+    Model only. *)
 From HP Require Import Base.Bytes.
 Open Scope Z_scope.
 
-Inductive ltoken := Y4 | M2 | D2 | Lit (c : N).
+(** Go's names: Y4 stdLongYear "2006", M2 stdZeroMonth "01", D2 stdZeroDay "02",
+    D1 stdDay "2", DU stdUnderDay "_2", M1 stdNumMonth "1", MonS stdMonth "Jan",
+    MonL stdLongMonth "January" *)
+Inductive ltoken := Y4 | M2 | D2 | D1 | DU | M1 | MonS | MonL | Lit (c : N).
 
-(** literal bytes that cannot start a Go reference-time token when they occur
-    between the three tokens above *)
+(** literal bytes that cannot start a Go reference-time element when they occur
+    between the elements above: / - . space : and the comma *)
 Definition safe_literal (c : N) : bool :=
-  ((c =? 47) || (c =? 45) || (c =? 46) || (c =? 32) || (c =? 58))%N.
+  ((c =? 47) || (c =? 45) || (c =? 46) || (c =? 32) || (c =? 58) || (c =? 44))%N.
+
+(** [startsWithLowerCase] *)
+Definition starts_lower (l : bytes) : bool :=
+  match l with c :: _ => ((97 <=? c) && (c <=? 122))%N | [] => false end.
+
+(** [nextStdChunk], one position at a time: the element that starts at the head of [l]
+    (with its length in bytes), a safe literal, or [None] for everything else: an element
+    outside the model ([15], [03]..[06], [002], [__2], [Mon], [MST], [PM], [Z07], [3], [4], [5] ...),
+    [_2006] (a literal [_] and the year in Go), [Jan] followed by a lower-case letter (literal
+    letters in Go), any other literal byte.  The order of the tests is the order in which
+    [nextStdChunk] tries the prefixes that begin with the same byte. *)
+Definition next_elem (l : bytes) : option (ltoken * nat) :=
+  match l with
+  | [] => None
+  | c :: _ =>
+      if is_prefix (b "January") l then Some (MonL, 7%nat)
+      else if is_prefix (b "Jan") l then (if starts_lower (skipn 3 l) then None else Some (MonS, 3%nat))
+      else if is_prefix (b "01") l then Some (M2, 2%nat)
+      else if is_prefix (b "02") l then Some (D2, 2%nat)
+      else if is_prefix (b "15") l then None
+      else if (c =? 49)%N then Some (M1, 1%nat)
+      else if is_prefix (b "2006") l then Some (Y4, 4%nat)
+      else if (c =? 50)%N then Some (D1, 1%nat)
+      else if is_prefix (b "_2006") l then None
+      else if is_prefix (b "_2") l then Some (DU, 2%nat)
+      else if safe_literal c then Some (Lit c, 1%nat) else None
+  end.
 
 Fixpoint tokenize_fuel (fuel : nat) (l : bytes) : option (list ltoken) :=
   match fuel with
@@ -18,22 +49,27 @@ Fixpoint tokenize_fuel (fuel : nat) (l : bytes) : option (list ltoken) :=
   | S f =>
       match l with
       | [] => Some []
-      | 50%N :: 48%N :: 48%N :: 54%N :: r => option_map (cons Y4) (tokenize_fuel f r)
-      | 48%N :: 49%N :: r => option_map (cons M2) (tokenize_fuel f r)
-      | 48%N :: 50%N :: r => option_map (cons D2) (tokenize_fuel f r)
-      | c :: r => if safe_literal c then option_map (cons (Lit c)) (tokenize_fuel f r) else None
+      | _ :: _ => match next_elem l with
+                  | Some (t, n) => option_map (cons t) (tokenize_fuel f (skipn n l))
+                  | None => None
+                  end
       end
   end.
 
-Definition count_tok (t : ltoken) (l : list ltoken) : nat :=
-  length (filter (fun x => match x, t with Y4, Y4 | M2, M2 | D2, D2 => true | _, _ => false end) l).
+(** the field of the date an element sets *)
+Definition is_year (t : ltoken) : bool := match t with Y4 => true | _ => false end.
+Definition is_month (t : ltoken) : bool := match t with M2 | M1 | MonS | MonL => true | _ => false end.
+Definition is_day (t : ltoken) : bool := match t with D2 | D1 | DU => true | _ => false end.
 
-(** a modelled layout: only the three tokens and safe literals, each token at most once,
-    and no literal '-' or '.' directly before a digit token other than as separator
-    (checked against the real [time] package by the correspondence) *)
+Definition count_class (p : ltoken -> bool) (l : list ltoken) : nat := length (filter p l).
+
+(** a modelled layout: only the eight elements and safe literals, and each field (year, month, day)
+    set by at most one element, all spellings of the field counted together.  (Go itself accepts
+    repetitions, the later element wins, and [parse_tokens] does the same; the guard is only caution.) *)
 Definition tokenize (layout : bytes) : option (list ltoken) :=
   match tokenize_fuel (length layout) layout with
-  | Some l => if (Nat.leb (count_tok Y4 l) 1 && Nat.leb (count_tok M2 l) 1 && Nat.leb (count_tok D2 l) 1)%bool
+  | Some l => if (Nat.leb (count_class is_year l) 1 && Nat.leb (count_class is_month l) 1
+                  && Nat.leb (count_class is_day l) 1)%bool
               then Some l else None
   | None => None
   end.
@@ -49,6 +85,55 @@ Fixpoint take_digits (n : nat) (s : bytes) (acc : Z) : option (Z * bytes) :=
            end
   end.
 
+(** [getnum(s, false)]: one digit, or two when the second byte is a digit too *)
+Definition get_num (s : bytes) : option (Z * bytes) :=
+  match s with
+  | c1 :: r1 =>
+      match digit_val c1 with
+      | None => None
+      | Some d1 =>
+          match r1 with
+          | c2 :: r2 => match digit_val c2 with Some d2 => Some (d1 * 10 + d2, r2) | None => Some (d1, r1) end
+          | [] => Some (d1, r1)
+          end
+      end
+  | [] => None
+  end.
+
+(** [longMonthNames]; [shortMonthNames] and what [Format] writes for [Jan] are their first three bytes *)
+Definition long_months : list bytes :=
+  [b "January"; b "February"; b "March"; b "April"; b "May"; b "June";
+   b "July"; b "August"; b "September"; b "October"; b "November"; b "December"].
+Definition short_months : list bytes :=
+  [b "Jan"; b "Feb"; b "Mar"; b "Apr"; b "May"; b "Jun"; b "Jul"; b "Aug"; b "Sep"; b "Oct"; b "Nov"; b "Dec"].
+
+(** [Month.String] for 1..12 *)
+Definition month_name (m : Z) : bytes := nth (Z.to_nat (m - 1)) long_months [].
+
+(** one byte of [match]: equal, or equal letters after folding the case *)
+Definition match_byte (c1 c2 : N) : bool :=
+  ((c1 =? c2) || ((lower c1 =? lower c2) && (97 <=? lower c1) && (lower c1 <=? 122)))%N.
+
+(** [len(val) >= len(name) && match(val[0:len(name)], name)], answering the rest of [val] *)
+Fixpoint match_prefix (name val : bytes) : option bytes :=
+  match name with
+  | [] => Some val
+  | c :: name' => match val with
+                  | v :: val' => if match_byte v c then match_prefix name' val' else None
+                  | [] => None
+                  end
+  end.
+
+(** [lookup(tab, val)]: the first name of the table (numbered from [i]) that [val] begins with *)
+Fixpoint lookup_name (tab : list bytes) (i : Z) (val : bytes) : option (Z * bytes) :=
+  match tab with
+  | [] => None
+  | name :: tab' => match match_prefix name val with
+                    | Some r => Some (i, r)
+                    | None => lookup_name tab' (i + 1) val
+                    end
+  end.
+
 Definition is_leap (y : Z) : bool := ((y mod 4 =? 0) && (negb (y mod 100 =? 0) || (y mod 400 =? 0)))%bool.
 
 Definition days_in (y m : Z) : Z :=
@@ -58,7 +143,11 @@ Definition days_in (y m : Z) : Z :=
 Fixpoint drop_spaces (s : bytes) : bytes := match s with 32%N :: r => drop_spaces r | _ => s end.
 Fixpoint drop_space_lits (l : list ltoken) : list ltoken := match l with Lit 32%N :: r => drop_space_lits r | _ => l end.
 
-(** fields parsed so far; Go's defaults are year 0, month 1, day 1 *)
+(** [_2] reads one optional blank before the number *)
+Definition drop_one_space (s : bytes) : bytes := match s with 32%N :: r => r | _ => s end.
+
+(** fields parsed so far; Go's defaults are year 0, month 1, day 1.  A later element of a field
+    overrides an earlier one; the day is checked against the month only at the end ([parse_date]) *)
 Fixpoint parse_tokens (l : list ltoken) (s : bytes) (y m d : Z) : option (Z * Z * Z) :=
   match l with
   | [] => match s with [] => Some (y, m, d) | _ => None end          (* extra text *)
@@ -66,9 +155,14 @@ Fixpoint parse_tokens (l : list ltoken) (s : bytes) (y m d : Z) : option (Z * Z 
   | M2 :: r => match take_digits 2 s 0 with
                | Some (v, s') => if (1 <=? v) && (v <=? 12) then parse_tokens r s' y v d else None
                | None => None end
-  | D2 :: r => match take_digits 2 s 0 with
-               | Some (v, s') => if (0 <=? v) && (v <=? 31) then parse_tokens r s' y m v else None
+  | D2 :: r => match take_digits 2 s 0 with Some (v, s') => parse_tokens r s' y m v | None => None end
+  | D1 :: r => match get_num s with Some (v, s') => parse_tokens r s' y m v | None => None end
+  | DU :: r => match get_num (drop_one_space s) with Some (v, s') => parse_tokens r s' y m v | None => None end
+  | M1 :: r => match get_num s with
+               | Some (v, s') => if (1 <=? v) && (v <=? 12) then parse_tokens r s' y v d else None
                | None => None end
+  | MonS :: r => match lookup_name short_months 1 s with Some (v, s') => parse_tokens r s' y v d | None => None end
+  | MonL :: r => match lookup_name long_months 1 s with Some (v, s') => parse_tokens r s' y v d | None => None end
   | Lit c :: r =>
       if (c =? 32)%N then
         (* time.skip: a space in the layout stands for any run of spaces in the value, also an empty one at its end *)
@@ -103,14 +197,23 @@ Definition fmt_num (width : nat) (v : Z) : bytes :=
   let ds := dec_of_N (Z.to_N v) in
   brepeat [48%N] (width - length ds) ++ ds.
 
-Definition format_date (toks : list ltoken) (civ : Z * Z * Z) : bytes :=
+(** what [Format] writes for one element *)
+Definition format_tok (civ : Z * Z * Z) (t : ltoken) : bytes :=
   let '(y, m, d) := civ in
-  concat (map (fun t => match t with
-                        | Y4 => fmt_num 4 y
-                        | M2 => fmt_num 2 m
-                        | D2 => fmt_num 2 d
-                        | Lit c => [c]
-                        end) toks).
+  match t with
+  | Y4 => fmt_num 4 y
+  | M2 => fmt_num 2 m
+  | D2 => fmt_num 2 d
+  | D1 => fmt_num 0 d
+  | DU => (if d <? 10 then [32%N] else []) ++ fmt_num 0 d
+  | M1 => fmt_num 0 m
+  | MonS => firstn 3 (month_name m)
+  | MonL => month_name m
+  | Lit c => [c]
+  end.
+
+Definition format_date (toks : list ltoken) (civ : Z * Z * Z) : bytes :=
+  concat (map (format_tok civ) toks).
 
 (** a [time.Time]: the instant in ns since the epoch, the zone offset in seconds
     east of UTC, and the civil date in that zone (what Format prints) *)
